@@ -87,6 +87,8 @@ type Fault struct {
 	K      int
 	Mode   FaultMode
 	Cancel context.CancelFunc // for FaultCancel
+	// Kind, if set, counts only events of that kind (e.g. the K-th COMMIT of Actor)
+	Kind Kind
 }
 
 // Control is the process-global seam state. Cases run one at a time per
@@ -227,6 +229,7 @@ func (c *Control) step(ctx context.Context, actor string, kind Kind, q string) e
 	c.seq++
 	c.total++
 	c.counts[actor]++
+	c.counts[actor+"\x00"+string(kind)]++
 	var inject error
 	var cancel context.CancelFunc
 	if f := c.fault; f != nil && f.Mode != FaultNone {
@@ -236,6 +239,12 @@ func (c *Control) step(ctx context.Context, actor string, kind Kind, q string) e
 				n = c.counts[actor]
 			} else {
 				n = -1
+			}
+		}
+		if f.Kind != "" {
+			n = -1
+			if kind == f.Kind && (f.Actor == "" || actor == f.Actor) {
+				n = c.counts[actor+"\x00"+string(kind)]
 			}
 		}
 		if n == f.K {
